@@ -88,3 +88,36 @@ package util
 //@   modifies fexists[key(filename)]
 //@   ensures result == nil ==> !fexists[key(filename)]
 //@   ensures result != nil ==> fexists[key(filename)] == old(fexists[key(filename)])
+
+// ==== merged key of a key tuple (C06, C19) ==========================================================================================
+// The merged key is the concatenation of (8-byte little-endian length, bytes) per key. mkpos is ghost: mkpos[i] = position
+// of key i's length prefix in the result. mergedof(m, pos, keys, n): the first n keys are laid out in m at pos[0..n].
+// Injectivity - two tuples of the same arity with the same merged key are equal - is the lemma in verif_lemmas.go.
+//@ ghost var mkpos [1099511627776]int
+//@ ghost var mkposA [1099511627776]int
+//@ ghost var mkposB [1099511627776]int
+//@ pure func le64(m []byte, p int) int := m[p] + 256*m[p+1] + 65536*m[p+2] + 16777216*m[p+3] + 4294967296*m[p+4] + 1099511627776*m[p+5] + 281474976710656*m[p+6] + 72057594037927936*m[p+7]
+//@ pure func mkchain(m []byte, pos [1099511627776]int, keys []string, n int) bool := forall i int :: 0 <= i && i < n ==> 0 <= pos[i] && pos[i+1] == pos[i] + 8 + len(keys[i]) && pos[i+1] <= len(m)
+//@ pure func mklens(m []byte, pos [1099511627776]int, keys []string, n int) bool := forall i int :: 0 <= i && i < n ==> le64(m, pos[i]) == len(keys[i])
+//@ pure func mkbytes(m []byte, pos [1099511627776]int, keys []string, n int) bool := forall i int :: 0 <= i && i < n ==> forall j int :: 0 <= j && j < len(keys[i]) ==> m[pos[i]+8+j] == keys[i][j]
+//@ pure func mergedof(m []byte, pos [1099511627776]int, keys []string, n int) bool := mkchain(m, pos, keys, n) && mklens(m, pos, keys, n) && mkbytes(m, pos, keys, n)
+//@ func AppendMergedKey(buf []byte, keys []string) []byte
+//@   property C06 C19
+//@   modifies buf[len(buf):cap(buf)], mkpos
+//@   ensures[each-key-length-prefixed] mkpos[0] == len(buf) && mkpos[len(keys)] == len(result) && mergedof(result, mkpos, keys, len(keys))
+//@   ensures[existing-bytes-kept] len(result) >= len(buf) && forall p int :: 0 <= p && p < len(buf) ==> result[p] == old(buf[p])
+//@   loop 1: ghostset mkpos[rangeindex+1] := len(buf)
+//@   loop 1: invariant -1 <= rangeindex && rangeindex < len(keys) && mkpos[0] == old(len(buf)) && mkpos[rangeindex+1] == len(buf) && len(buf) >= old(len(buf))
+//@   loop 1: invariant mkchain(buf, mkpos, keys, rangeindex+1)
+//@   loop 1: invariant mklens(buf, mkpos, keys, rangeindex+1)
+//@   loop 1: invariant mkbytes(buf, mkpos, keys, rangeindex+1)
+//@   loop 1: invariant forall p int :: 0 <= p && p < old(len(buf)) ==> buf[p] == old(buf[p])
+
+//@ func lemmaMergedKeyInjective(ma, mb []byte, a, b []string)
+//@   property C06 C19
+//@   requires len(a) == len(b) && len(ma) == len(mb) && forall p int :: 0 <= p && p < len(ma) ==> ma[p] == mb[p]
+//@   requires mkposA[0] == 0 && mkposB[0] == 0 && mergedof(ma, mkposA, a, len(a)) && mergedof(mb, mkposB, b, len(b))
+//@   modifies nothing
+//@   ensures[equal-merged-keys-mean-equal-tuples] forall k int :: 0 <= k && k < len(a) ==> a[k] == b[k]
+//@   loop 1: invariant 0 <= i && i <= len(a) && mkposA[i] == mkposB[i] && forall k int :: 0 <= k && k < i ==> a[k] == b[k]
+//@   loop 1: decreases len(a) - i
